@@ -120,7 +120,7 @@ def _run_lines(cmd, lines, timeout, env=None):
     if env:
         e.update(env)
     try:
-        p = subprocess.run(cmd, input=inp, capture_output=True, timeout=timeout, env=e)
+        p = subprocess.run(cmd, input=inp, capture_output=True, timeout=timeout, env=e, cwd='/')
         outs = p.stdout.decode('utf-8', 'replace').split('\n')
         if outs and outs[-1] == '':
             outs.pop()
